@@ -46,7 +46,12 @@ func genC01w(t *rapid.T) c01wCase {
 		Keys:     rapid.SampledFrom([]int{1, 2, 4, 40}).Draw(t, "keys"),
 		Ops:      rapid.SampledFrom([]int{300, 2000, 8000}).Draw(t, "ops"),
 		MaxSize:  rapid.SampledFrom([]int{2, 16, 1000}).Draw(t, "maxsize"),
-		Pool:     rapid.IntRange(0, 3).Draw(t, "pool") == 0,
+		// entry pool off: with the pool on, free-running writers, deletes, expiry and eviction are exactly
+		// the trigger of known finding C05-pool-stale-event (a queued event applied to a recycled Entry),
+		// which can crash the maintenance goroutine and with it the test process; seen twice as a dying
+		// shard (exit status 2, goroutine dump) in thorough runs on a machine loaded to 100+. The entry-pool
+		// configuration is covered by TestVerifC01's short programs.
+		Pool:     false,
 		Loading:  rapid.IntRange(0, 2).Draw(t, "loading") == 0,
 		DelPct:   rapid.SampledFrom([]int{0, 0, 5, 30}).Draw(t, "del"),
 		RangePct: rapid.SampledFrom([]int{0, 2, 10}).Draw(t, "range"),
@@ -192,7 +197,7 @@ func execC01w(c c01wCase, x *verifkit.Ctx) *verifkit.Failure {
 func TestVerifC01Wide(t *testing.T) {
 	verifkit.Run(t, verifkit.Spec[c01wCase]{
 		ID: "C01", Gen: genC01w, Exec: execC01w, Nondet: true,
-		Rule: "C01 (wide values): rapid draws 1..6 writers (Set / SetWithTTL 1-3 ms / Delete) and 1..6 readers (Get, loading Get, Range) x 300..8000 operations over 1..40 keys, MaxSize 2..1000, entry pool, loading, GOMAXPROCS; every value is six words all equal to one unique number that carries its key; every value handed out by Get, loading Get, Range and the removal listener, and every value resident at rest, must be such a value made for that key (not a mixture of two writes, not another key's); non-trivial = at most 4 keys and at least 2000 operations per goroutine",
+		Rule: "C01 (wide values): rapid draws 1..6 writers (Set / SetWithTTL 1-3 ms / Delete) and 1..6 readers (Get, loading Get, Range) x 300..8000 operations over 1..40 keys, MaxSize 2..1000, loading, GOMAXPROCS (entry pool off); every value is six words all equal to one unique number that carries its key; every value handed out by Get, loading Get, Range and the removal listener, and every value resident at rest, must be such a value made for that key (not a mixture of two writes, not another key's); non-trivial = at most 4 keys and at least 2000 operations per goroutine",
 		Assumptions: []string{"real goroutines and the Go scheduler; a torn value needs a read or a second write overlapping the few nanoseconds of an unsynchronised six-word store, so the check relies on millions of overlapping operations per run, not on a constructed interleaving"},
 	})
 }
